@@ -4,6 +4,7 @@
 @theorem("theorems:C09_general")
 def c09_general(fcp: "ref:FcpV2"):
     option("module", "fcp.verifier")
+    option("inline_calls", ["fcp.verifier:Verifier.verify"])
     ensures(result.is_ok() == wf_general(fcp))
     ensures(result.is_err() == (not wf_general(fcp)))
     v = make_general_verifier()
@@ -13,6 +14,7 @@ def c09_general(fcp: "ref:FcpV2"):
 @theorem("theorems:C09_dbc")
 def c09_dbc(fcp: "ref:FcpV2"):
     option("module", "fcp.verifier")
+    option("inline_calls", ["fcp.verifier:Verifier.verify"])
     option("imports", {"DbcGenerator": "fcp_dbc.generator:Generator"})
     ensures(result.is_ok() == (wf_general(fcp) and wf_dbc(fcp)))
     ensures(result.is_err() == (not (wf_general(fcp) and wf_dbc(fcp))))
